@@ -15,6 +15,18 @@ _mtypes = {'method_call': 1,
            'signal': 4}
 
 
+def _inNamespace(path, namespace):
+    """
+    True if path is the object path namespace itself or one of its descendants
+    ('/a/b' contains '/a/b' and '/a/b/c' but not '/a/bc')
+    """
+    return (
+        path == namespace
+        or namespace == '/'
+        or path.startswith(namespace + '/')
+    )
+
+
 class Rule :
     """
     Represents a single match rule
@@ -47,7 +59,7 @@ class Rule :
             if hasattr(self, 'path_namespace'):
                 if (
                     m.path is None
-                    or not m.path.startswith(self.path_namespace)
+                    or not _inNamespace(m.path, self.path_namespace)
                 ):
                     return
 
